@@ -265,11 +265,10 @@ def mirror(point: PointType, normal: VectorType, origin: PointType):
     normal = unit_vector(normal)
     origin = np.asarray(origin)
 
-    point -= origin
-    rotated = point.dot(mirror_matrix(normal))
-    rotated += origin
+    # do not modify the array passed in
+    rotated = (point - origin).dot(mirror_matrix(normal))
 
-    return rotated
+    return rotated + origin
 
 
 def point_to_plane_distance(origin: PointType, normal: VectorType, point: PointType) -> float:
